@@ -653,8 +653,8 @@ class Translator:
         """both branches only assign: `let vars := if c then … else …`; None when a branch can leave or raise"""
         mod = self.assigned(body, [])
         self.assigned(orelse, mod)
-        if any(m not in env for m in mod):
-            return None                      # a variable that is new in a branch: per-path environments needed
+        if any(isinstance(m, str) and m not in env and m in self.reserved for m in mod):
+            return None
         saved = (self.tmp, self.raises)
         jf = JoinFrame(self, mod)
         try:
@@ -663,6 +663,9 @@ class Translator:
         except _NotSimple:
             self.tmp, self.raises = saved
             return None
+        if any(m not in e for e in jf.ends for m in mod):
+            self.tmp, self.raises = saved
+            return None                      # a variable that is new in one branch only: per-path environments needed
         if not mod:
             return None if (a.strip("\0J_0123456789") or b.strip("\0J_0123456789")) else ("", env)
         text, env2 = jf.finish(env, node, lambda parts: f"if {c.term} then (\n{ind(parts[0])})\nelse (\n{ind(parts[1])})", [a, b])
